@@ -468,7 +468,8 @@ static void mps_err (
 		ILL_FAILfalse (state->p >= state->line, "state->p >= state->line");
 		at = state->p - state->line;
 	}
-	vsprintf (error_desc, format, args);
+	/* leave room for the newline appended below; long names must not overrun */
+	vsnprintf (error_desc, sizeof (error_desc) - 2, format, args);
 	slen = strlen (error_desc);
 	if ((slen > 0) && error_desc[slen - 1] != '\n')
 	{
